@@ -94,6 +94,40 @@ def scope_info(node):
     return locs - fixed, fixed
 
 
+def single_definition(name_node):
+    """The value of the only assignment to this local in its function (a named sub-expression), if there is exactly one
+    and it is a plain `name = expr` statement that is not inside a loop."""
+    f = name_node
+    while f is not None and not isinstance(f, (ast.FunctionDef, ast.AsyncFunctionDef)):
+        f = getattr(f, "_parent", None)
+    if f is None:
+        return None
+    cache = getattr(f, "_pm_defs", None)
+    if cache is None:
+        cache = {}
+        for x in ast.walk(f):
+            if isinstance(x, ast.Name) and isinstance(x.ctx, (ast.Store, ast.Del)):
+                cache.setdefault(x.id, []).append(x)
+            elif isinstance(x, ast.arg):
+                cache.setdefault(x.arg, []).append(x)
+        try:
+            f._pm_defs = cache
+        except AttributeError:
+            pass
+    stores = cache.get(name_node.id, [])
+    if len(stores) != 1:
+        return None
+    st = getattr(stores[0], "_parent", None)
+    if not (isinstance(st, ast.Assign) and len(st.targets) == 1 and st.targets[0] is stores[0]):
+        return None
+    q = st
+    while q is not None and q is not f:
+        if isinstance(q, (ast.For, ast.While, ast.AsyncFor)):
+            return None
+        q = getattr(q, "_parent", None)
+    return st.value
+
+
 class Match:
     def __init__(self, locals_=(), fixed=(), bind=None):
         self.locals = set(locals_)
@@ -120,6 +154,10 @@ class Match:
         if isinstance(p, ast.Name) and p.id == "__" and isinstance(n, ast.expr):
             return True
         if type(p) is not type(n):
+            if isinstance(n, ast.Name) and isinstance(n.ctx, ast.Load) and isinstance(p, ast.expr) and not isinstance(p, ast.Name) and n.id in self.locals:
+                d = single_definition(n)
+                if d is not None:
+                    return self.node(p, d)
             return False
         if isinstance(p, ast.Name):
             return self.name(p.id, n.id)
@@ -505,6 +543,10 @@ def near(node, pattern, bind=None):
         return None
     if not diffs or len(diffs) > NEAR_MAX_DIFFS or got < NEAR_RATIO * total:
         return None
+    if all(a.isidentifier() and b.isidentifier() for a, b in diffs):
+        return None  # only variable names differ: a renaming / re-use of locals the matcher could not align, not a deviation
+    if all(a in ("", "nothing") for a, b in diffs):
+        return None  # only additions (an extra argument, an extra statement): what is required is all there
     return "; ".join(f"`{b}` where `{a}` is required" for a, b in diffs)
 
 
